@@ -5,7 +5,7 @@ PID = "C01"
 
 
 def run(v):
-    n, steps = (72, 40) if v.tier == "quick" else (360, 45)
+    n, steps = (92, 40) if v.tier == "quick" else (400, 45)
     D.run_db(v, PID, "c01", n, steps,
              "random histories over {app write/update/delete(+incremental vacuum)/VACUUM/DDL/rollback, app checkpoint in 4 modes, "
              "app connection close/open, long reader on/off, Sync, single verify+sync step, Replica.Sync, Checkpoint(mode), "
